@@ -243,18 +243,22 @@ theorem tsound_of_reach {H : THeap W Wt} {D : Int → Prop} {me : Nat} {y : TTx 
 def firstNewWid (H : THeap W Wt) : Nat := (TTx.newWid (TTx.start H 0)).2
 
 inductive LexTrack (H : THeap W Wt) (y : TTx W Wt) : Prop where
-  | same : y.heap.words = H.words → y.heap.lexCount = H.lexCount → LexTrack H y
+  | same : y.heap.words = H.words → y.heap.lexCount = H.lexCount → y.heap.wids = H.wids → LexTrack H y
   | grew : (AMap.get y.heap.words (firstNewWid H)).isSome → tdirty y.writes .words = true → LexTrack H y
 
 theorem lextrack_prim {H : THeap W Wt} (p : TPrim W Wt) {y : TTx W Wt} (ht : LexTrack H y) :
     LexTrack H (p.app y) := by
   -- every step but `newWord` leaves `_words`, the `Length` and the registration of `_words` alone
-  have keep : ∀ z : TTx W Wt, z.heap.words = y.heap.words → z.heap.lexCount = y.heap.lexCount →
+  have keep' : ∀ z : TTx W Wt, z.heap.words = y.heap.words → z.heap.lexCount = y.heap.lexCount →
+      z.heap.wids = y.heap.wids →
       (tdirty y.writes .words = true → tdirty z.writes .words = true) → LexTrack H z := by
-    intro z e1 e2 e3
+    intro z e1 e2 e4 e3
     cases ht with
-    | same a b => exact .same (e1.trans a) (e2.trans b)
+    | same a b c => exact .same (e1.trans a) (e2.trans b) (e4.trans c)
     | grew a b => exact .grew (by rw [e1]; exact a) (e3 b)
+  have keep : ∀ z : TTx W Wt, z.heap.words = y.heap.words → z.heap.lexCount = y.heap.lexCount →
+      (z.heap.wids = y.heap.wids) →
+      (tdirty y.writes .words = true → tdirty z.writes .words = true) → LexTrack H z := keep'
   have mono : ∀ (z : TTx W Wt) (pre : List (TStep W)), z.log = pre ++ y.log →
       tdirty y.writes .words = true → tdirty z.writes .words = true := by
     intro z pre e h
@@ -269,7 +273,7 @@ theorem lextrack_prim {H : THeap W Wt} (p : TPrim W Wt) {y : TTx W Wt} (ht : Lex
       show tdirty (TTx.nt _ (.words _)).writes .words = true
       rw [writes_nt, tdirty_cons]; simp [TLoc.obj]
     cases ht with
-    | same a b =>
+    | same a b _ =>
       refine .grew ?_ hd
       have e : (TTx.newWid y).2 = firstNewWid H := newWid_congr y (TTx.start H 0) a b
       show (AMap.get (AMap.set (TTx.newWid y).1.heap.words (TTx.newWid y).2 w) (firstNewWid H)).isSome
@@ -281,37 +285,37 @@ theorem lextrack_prim {H : THeap W Wt} (p : TPrim W Wt) {y : TTx W Wt} (ht : Lex
       split
       · rfl
       · rw [h1]; exact a
-  | rd l => exact keep _ rfl rfl (mono _ [] rfl)
-  | wiSet i v => exact keep _ rfl rfl (mono _ [_] rfl)
-  | wiErase i => exact keep _ rfl rfl (mono _ [_] rfl)
-  | dictPutR i m d f => exact keep _ rfl rfl (mono _ [_, _] rfl)
-  | dictDelR i m d => exact keep _ rfl rfl (mono _ [_, _] rfl)
-  | dictDelE i m d => exact keep _ rfl rfl (mono _ [_, _] rfl)
-  | dwSet d ws => exact keep _ rfl rfl (mono _ [_] rfl)
-  | dwErase d => exact keep _ rfl rfl (mono _ [_] rfl)
+  | rd l => exact keep _ rfl rfl rfl (mono _ [] rfl)
+  | wiSet i v => exact keep _ rfl rfl rfl (mono _ [_] rfl)
+  | wiErase i => exact keep _ rfl rfl rfl (mono _ [_] rfl)
+  | dictPutR i m d f => exact keep _ rfl rfl rfl (mono _ [_, _] rfl)
+  | dictDelR i m d => exact keep _ rfl rfl rfl (mono _ [_, _] rfl)
+  | dictDelE i m d => exact keep _ rfl rfl rfl (mono _ [_, _] rfl)
+  | dwSet d ws => exact keep _ rfl rfl rfl (mono _ [_] rfl)
+  | dwErase d => exact keep _ rfl rfl rfl (mono _ [_] rfl)
   | dwtSet d f =>
     show LexTrack H (y.dwtSet d f)
     unfold TTx.dwtSet
     split
     · exact ht
-    · exact keep _ rfl rfl (mono _ [_] rfl)
-  | dwtErase d => exact keep _ rfl rfl (mono _ [_] rfl)
-  | wcChange δ => exact keep _ rfl rfl (mono _ [_] rfl)
-  | icChange δ => exact keep _ rfl rfl (mono _ [_] rfl)
-  | tdlChange δ => exact keep _ rfl rfl (mono _ [_] rfl)
-  | niRemove d => exact keep _ rfl rfl (mono _ [_] rfl)
-  | niAdd d => exact keep _ rfl rfl (mono _ [_] rfl)
+    · exact keep _ rfl rfl rfl (mono _ [_] rfl)
+  | dwtErase d => exact keep _ rfl rfl rfl (mono _ [_] rfl)
+  | wcChange δ => exact keep _ rfl rfl rfl (mono _ [_] rfl)
+  | icChange δ => exact keep _ rfl rfl rfl (mono _ [_] rfl)
+  | tdlChange δ => exact keep _ rfl rfl rfl (mono _ [_] rfl)
+  | niRemove d => exact keep _ rfl rfl rfl (mono _ [_] rfl)
+  | niAdd d => exact keep _ rfl rfl rfl (mono _ [_] rfl)
   | treePut o d f =>
     show LexTrack H (y.treePut o d f)
     unfold TTx.treePut
     split
     · exact ht
-    · exact keep _ rfl rfl (mono _ [_] rfl)
-  | treeDel o d => exact keep _ rfl rfl (mono _ [_] rfl)
-  | alloc m => exact keep _ rfl rfl (mono _ [_] rfl)
+    · exact keep _ rfl rfl rfl (mono _ [_] rfl)
+  | treeDel o d => exact keep _ rfl rfl rfl (mono _ [_] rfl)
+  | alloc m => exact keep _ rfl rfl rfl (mono _ [_] rfl)
 
 theorem lextrack_of_reach {H : THeap W Wt} {D : Int → Prop} {me : Nat} {y : TTx W Wt}
     (h : Reach D (TTx.start H me) y) : LexTrack H y :=
-  Reach.induct (fun y => LexTrack H y) (.same rfl rfl) (fun p _ _ hz _ => lextrack_prim p hz) h
+  Reach.induct (fun y => LexTrack H y) (.same rfl rfl rfl) (fun p _ _ hz _ => lextrack_prim p hz) h
 
 end Hyp.CIdx
